@@ -275,3 +275,69 @@ def store_bindings(repo: Repo):
                         else:
                             bad.append((fi, f"{k.arg}={ast.unparse(v)}", n.lineno))
     return ok, bad
+
+
+PARAM_ATTR_OK = {
+    ("Registry.get", "spec"): "callers hand Registry.get a ValueSpec of their own (spec.copy(...)); normalising its type in place is the protocol",
+    ("apply_array_constraints", "schema"): "decorates the schema object its caller just created",
+    ("apply_object_constraints", "schema"): "decorates the schema object its caller just created",
+    ("DocstringDescriptionPlugin.get_schema", "schema"): "plugin protocol: the schema under construction is handed over for decoration",
+    ("SerializableType.__init_subclass__", "cls"): "the class being created",
+    ("SerializationStrategy.__init_subclass__", "cls"): "the class being created",
+}
+
+
+def _makes_fresh(st: ast.stmt, name: str) -> bool:
+    """True if after ``st`` the local ``name`` is bound to an object created by this function on every path through st."""
+    if isinstance(st, ast.Assign) and len(st.targets) == 1 and isinstance(st.targets[0], ast.Name) and st.targets[0].id == name:
+        v = st.value
+        return _is_fresh(v) or (isinstance(v, ast.Call) and isinstance(v.func, ast.Name) and v.func.id[:1].isupper())
+    if isinstance(st, ast.If):
+        def branch(body):
+            return any(_makes_fresh(x, name) for x in body)
+        return bool(st.orelse) and branch(st.body) and branch(st.orelse)
+    return False
+
+
+def param_attr_stores(repo: Repo):
+    """Attribute stores on a parameter object (other than self): allowed after the parameter was rebound to a fresh
+    object on every path, or for the designed protocols in PARAM_ATTR_OK. -> (ok, bad[(FuncInfo, text, lineno)])"""
+    ok = 0
+    bad = []
+    for key, fi in sorted(repo.funcs.items()):
+        if not fi.module.startswith("mashumaro"):
+            continue
+        params = {a.arg for a in fi.node.args.posonlyargs + fi.node.args.args + fi.node.args.kwonlyargs} - {"self"}
+
+        def scan(body, fresh: Set[str]):
+            nonlocal ok
+            fresh = set(fresh)
+            for st in body:
+                for n in ([st] if not isinstance(st, (ast.If, ast.For, ast.With, ast.Try, ast.While)) else []):
+                    tg = n.targets if isinstance(n, ast.Assign) else [n.target] if isinstance(n, (ast.AugAssign, ast.AnnAssign)) else []
+                    for t in tg:
+                        if isinstance(t, ast.Attribute) and isinstance(t.value, ast.Name) and t.value.id in params:
+                            nm = t.value.id
+                            if nm in fresh or (fi.qualname, nm) in PARAM_ATTR_OK:
+                                ok += 1
+                            else:
+                                bad.append((fi, ast.unparse(n)[:100], n.lineno))
+                if isinstance(st, ast.If):
+                    scan(st.body, fresh)
+                    scan(st.orelse, fresh)
+                elif isinstance(st, (ast.For, ast.While)):
+                    scan(st.body, fresh)
+                    scan(st.orelse, fresh)
+                elif isinstance(st, ast.With):
+                    scan(st.body, fresh)
+                elif isinstance(st, ast.Try):
+                    scan(st.body, fresh)
+                    for h in st.handlers:
+                        scan(h.body, fresh)
+                    scan(st.orelse, fresh)
+                    scan(st.finalbody, fresh)
+                for nm in params:
+                    if _makes_fresh(st, nm):
+                        fresh.add(nm)
+        scan(fi.node.body, set())
+    return ok, bad
